@@ -88,10 +88,19 @@ func envOr(k, d string) string {
 	return d
 }
 
+// propDeps: `config depends P Q R` in a spec file -- deciding P also requires every obligation
+// tagged Q or R (e.g. C04's "all C01 rules met").
+var propDeps = map[string][]string{}
+
 func hasProp(ps []string, p string) bool {
 	for _, x := range ps {
 		if x == p {
 			return true
+		}
+		for _, d := range propDeps[p] {
+			if x == d {
+				return true
+			}
 		}
 	}
 	return false
